@@ -76,7 +76,10 @@ type (
 	}
 )
 
-func (v *NumVal) IsInt() bool { return v.V == math.Trunc(v.V) }
+// IsInt reports whether v is a whole number that fits in int64 (so that Int() is exact).
+func (v *NumVal) IsInt() bool {
+	return v.V == math.Trunc(v.V) && v.V >= math.MinInt64 && v.V < -math.MinInt64
+}
 func (v *NumVal) Int() int64  { return int64(v.V) }
 
 func (v *Val) Bool() *BoolVal   { return (*BoolVal)(unsafe.Pointer(v)) }
